@@ -1,2 +1,146 @@
-(** placeholder while the harness is developed; replaced by the theorems *)
-From SP Require Import Design.Flat Design.Derive.
+(** C15 - Derived factors must be total, unambiguous functions of their window.
+
+    Model: Design/Derive.v (literal model of DerivationProcessor.generate_derivations,
+    get_dependent_cross_product with BeforeStart, the ElseLevel complement,
+    _trial_arguments / select_level_for_sample; compared with the real code on
+    every run by harness/props/c15.py).  [domain d] is the cross product the
+    code iterates over, [accepts d l t] the predicate of level [l] on tuple [t]
+    (a table, or for an ElseLevel the complement computed from the other
+    levels), [gen_factor d cx] the outcome for one factor: [DOverlap] (the
+    ValueError raised while the block is built), or [DOk errs derivs] with the
+    errors / warnings added to [block.errors]; [DBadIndex] stands for an
+    exception of [first_variable_for_level] (a dependency that is not in
+    act_design) and never occurs for [check_factor].  All statements hold for
+    every number of dependencies, levels, window width, stride and start.
+    Proofs: Design/DeriveProofs.v. *)
+From Coq Require Import List Bool Arith.
+From SP Require Import Design.Flat Design.Layout Design.Derive Design.DeriveProofs.
+Import ListNotations.
+
+(** the block is rejected (ValueError) iff two levels accept a common tuple of the cross product *)
+Theorem C15_overlap_rejected : forall d cx, gen_factor d cx <> DBadIndex ->
+  ((exists l1 l2 t, gen_factor d cx = DOverlap l1 l2 t) <->
+   (exists l1 l2 t, l1 <> l2 /\ In t (domain d) /\ accepts d l1 t = true /\ accepts d l2 t = true)).
+Proof. exact DeriveProofs.overlap_rejected. Qed.
+Print Assumptions C15_overlap_rejected.
+
+(** the reported pair of levels and assignment is a genuine overlap *)
+Theorem C15_overlap_witness : forall d cx l1 l2 t, gen_factor d cx = DOverlap l1 l2 t ->
+  l1 < l2 /\ In t (domain d) /\ accepts d l1 t = true /\ accepts d l2 t = true.
+Proof. exact DeriveProofs.overlap_witness. Qed.
+Print Assumptions C15_overlap_witness.
+
+Theorem C15_check_factor_total : forall d crossed rcc, check_factor d crossed rcc <> DBadIndex.
+Proof. exact DeriveProofs.check_factor_not_bad. Qed.
+Print Assumptions C15_check_factor_total.
+
+Example C15_overlap_example :
+  let d := {| df_deps := [{| dp_nlevels := 2; dp_ready := 0 |}]; df_width := 1; df_stride := 1; df_start := 0;
+              df_levels := [DTable [[CLevel 0]; [CLevel 1]]; DTable [[CLevel 0]]] |} in
+  check_factor d false true = DOverlap 0 1 [CLevel 0] /\ In [CLevel 0] (domain d) /\
+  accepts d 0 [CLevel 0] = true /\ accepts d 1 [CLevel 0] = true.
+Proof. cbn. repeat split; auto. Qed.
+
+(** an error "No level ... matches" is reported exactly for the tuples no level accepts;
+    it is never a warning, so show_errors fails and synthesis returns no sequences *)
+Theorem C15_uncovered_reported : forall d cx errs ders, gen_factor d cx = DOk errs ders ->
+  forall t, In (Uncovered t) errs <-> (In t (domain d) /\ forall l, accepts d l t = false).
+Proof. exact DeriveProofs.uncovered_reported. Qed.
+Print Assumptions C15_uncovered_reported.
+
+Theorem C15_uncovered_fails : forall d cx errs ders t, gen_factor d cx = DOk errs ders ->
+  In t (domain d) -> (forall l, accepts d l t = false) -> outcome_fails (gen_factor d cx) = true.
+Proof. exact DeriveProofs.uncovered_fails. Qed.
+Print Assumptions C15_uncovered_fails.
+
+Example C15_uncovered_example :
+  let d := {| df_deps := [{| dp_nlevels := 2; dp_ready := 0 |}]; df_width := 2; df_stride := 1; df_start := 0;
+              df_levels := [DTable [[CLevel 0; CLevel 0]; [CLevel 1; CLevel 1]]; DTable [[CLevel 0; CLevel 1]; [CLevel 1; CLevel 0]]] |} in
+  check_factor d true true = DOk [Uncovered [CBefore; CLevel 0]; Uncovered [CBefore; CLevel 1]] [] /\
+  outcome_fails (check_factor d true true) = true.
+Proof. cbn. split; reflexivity. Qed.
+
+(** a level whose predicate matches nothing is reported (a warning unless the factor is crossed
+    and a complete crossing is required) *)
+Theorem C15_nomatch_reported : forall d cx errs ders, gen_factor d cx = DOk errs ders ->
+  forall l c r, In (NoMatchLevel l c r) errs <->
+    (l < length (df_levels d) /\ c = cx_crossed cx /\ r = cx_rcc cx /\
+     forall t, In t (domain d) -> accepts d l t = false).
+Proof. exact DeriveProofs.nomatch_reported. Qed.
+Print Assumptions C15_nomatch_reported.
+
+(** no non-warning error: every tuple of the cross product is accepted by exactly one level,
+    and that is the level select_level_for_sample picks *)
+Theorem C15_derive_ok_unique : forall d cx errs ders,
+  gen_factor d cx = DOk errs ders -> forallb is_warning errs = true ->
+  forall t, In t (domain d) ->
+  exists l, accepts d l t = true /\ (forall l', accepts d l' t = true -> l' = l) /\ select_level d t = Some l.
+Proof. exact DeriveProofs.derive_ok_unique. Qed.
+Print Assumptions C15_derive_ok_unique.
+
+Example C15_ok_example :
+  let d := {| df_deps := [{| dp_nlevels := 2; dp_ready := 0 |}]; df_width := 2; df_stride := 1; df_start := 1;
+              df_levels := [DTable [[CLevel 0; CLevel 0]; [CLevel 1; CLevel 1]]; DElse] |} in
+  check_factor d true true = DOk [] [] /\ select_level d [CLevel 0; CLevel 1] = Some 1 /\
+  select_level d [CLevel 1; CLevel 1] = Some 0.
+Proof. cbn. repeat split. Qed.
+
+(** the window of every trial the factor applies to is a tuple of the cross product (dependencies
+    defined from the first trial on, any sustain count), hence the trial receives exactly one level *)
+Theorem C15_window_in_domain : forall d cols n su g,
+  1 <= su ->
+  Forall (fun dp => dp_ready dp = 0) (df_deps d) ->
+  Forall2 (col_ok n) (df_deps d) cols ->
+  df_start d <= g -> g * su < n ->
+  exists t, window_args cols (df_width d) (g * su) su = Some t /\ In t (domain d).
+Proof. exact DeriveProofs.window_in_domain. Qed.
+Print Assumptions C15_window_in_domain.
+
+Theorem C15_trial_unique : forall d cx errs ders cols n su g,
+  gen_factor d cx = DOk errs ders -> forallb is_warning errs = true ->
+  1 <= su -> Forall (fun dp => dp_ready dp = 0) (df_deps d) ->
+  Forall2 (col_ok n) (df_deps d) cols ->
+  applies_group d g = true -> g * su < n ->
+  exists t l, window_args cols (df_width d) (g * su) su = Some t /\
+              select_level_for_sample d cols (g * su) su = SelLevel l /\
+              accepts d l t = true /\ forall l', accepts d l' t = true -> l' = l.
+Proof. exact DeriveProofs.trial_unique. Qed.
+Print Assumptions C15_trial_unique.
+
+Example C15_trial_example :
+  let d := {| df_deps := [{| dp_nlevels := 2; dp_ready := 0 |}]; df_width := 2; df_stride := 1; df_start := 1;
+              df_levels := [DTable [[CLevel 0; CLevel 0]; [CLevel 1; CLevel 1]]; DElse] |} in
+  let cols := [[CLevel 0; CLevel 1; CLevel 1]] in
+  Forall2 (col_ok 3) (df_deps d) cols /\ applies_group d 0 = false /\ applies_group d 2 = true /\
+  select_level_for_sample d cols 1 1 = SelLevel 1 /\ select_level_for_sample d cols 2 1 = SelLevel 0.
+Proof.
+  cbn. split; [|repeat split].
+  constructor; [|constructor]. split; [reflexivity|].
+  repeat (constructor; [eexists; split; [reflexivity | cbn; auto]|]). constructor.
+Qed.
+
+(** ElseLevel: accepts exactly the tuples no DerivedLevel of the factor accepts; with an
+    ElseLevel no tuple is uncovered *)
+Theorem C15_else_complement : forall d l, nth_error (df_levels d) l = Some DElse ->
+  forall t, accepts d l t = true <->
+            (forall l' tab, nth_error (df_levels d) l' = Some (DTable tab) -> accepts d l' t = false).
+Proof. exact DeriveProofs.else_complement. Qed.
+Print Assumptions C15_else_complement.
+
+Theorem C15_else_never_uncovered : forall d cx l errs ders, nth_error (df_levels d) l = Some DElse ->
+  gen_factor d cx = DOk errs ders -> forall t, ~ In (Uncovered t) errs.
+Proof. exact DeriveProofs.else_never_uncovered. Qed.
+Print Assumptions C15_else_never_uncovered.
+
+(** the same on the flat record of a whole block (every derived factor of the design) *)
+Theorem C15_block_overlap_sound : forall fb f l1 l2 t, generate_derivations fb = GOverlap f l1 l2 t ->
+  exists d, dfac_of_flat fb f = Some d /\ l1 < l2 /\ In t (domain d) /\ accepts d l1 t = true /\ accepts d l2 t = true.
+Proof. exact DeriveProofs.block_overlap_sound. Qed.
+Print Assumptions C15_block_overlap_sound.
+
+Theorem C15_block_ok_unique : forall fb errs ders, generate_derivations fb = GOk errs ders ->
+  forallb (fun p => is_warning (snd p)) errs = true ->
+  forall f d, dfac_of_flat fb f = Some d -> forall t, In t (domain d) ->
+  exists l, accepts d l t = true /\ (forall l', accepts d l' t = true -> l' = l) /\ select_level d t = Some l.
+Proof. exact DeriveProofs.block_ok_unique. Qed.
+Print Assumptions C15_block_ok_unique.
